@@ -16,9 +16,16 @@ RULE = ("random fonts: closed contours of line / cubic / quadratic segments on a
         "boundary, since the 2/3 elevation is floating point); component graphs of depth <= 6 with dyadic affine matrices incl. mirrors, "
         "shears, rotations (a separate share with singular matrices); fractional / half-integer / zero widths; skipExportGlyphs lists in "
         "15% of the fonts; x ufoLib2/defcon x roundTolerance {None,0,0.25,0.5} x cffVersion {1,2}; compileOTF(optimizeCFF=0), saved and "
-        "reloaded, every glyph drawn into a RecordingPen. non-trivial = some glyph has a component chain of depth>=2 or a det<0 component, "
-        "and some coordinate or width is a half-integer.")
-ASSUMED = ["Type 2 charstring encoding/decoding (fontTools) returns the commands the pen recorded (non-integers are 16.16 fixed: exact on the 1/8 grid)",
+        "reloaded, every glyph drawn into a RecordingPen AND its raw charstring program read (CharStrings[name].decompile(); .program) and "
+        "compared token for token - width operand, every delta, every operator, endchar - with the Lean model's charstring (cffProgram); the Lean "
+        "Type 2 interpreter is run over every observed program and must draw what fontTools' interpreter drew and recover the hmtx advance. "
+        "non-trivial = some glyph has a component chain of depth>=2 or a det<0 component, and some coordinate or width is a half-integer.")
+ASSUMED = ["unspecialised charstrings (optimizeCFF=0): the codec is no longer assumed - pen, program, interpreter and the CFF->CFF2 clean-up are modelled "
+           "and the round trip is proved (Props/C01Codec.lean); what remains assumed below that is fontTools' BINARY number encoding (28/32..254/255 "
+           "16.16 fixed: exact on the generated 1/8..1/512 grids; measured on every font: in-memory program == program after save/reload) and that the "
+           "doubles of the pen's subtractions / the interpreter's running sums are exact on those grids (the model computes in Q)",
+           "specialised and subroutinised charstrings (optimizeCFF>=1) are C12's subject (specializeCommands passes 1-3 modelled there, the rest measured)",
+           "fontTools.cffLib.width.optimizeWidths (choice of defaultWidthX/nominalWidthX) is an input of the width model; any pair is proved correct (C12_width)",
            "open contours cannot be represented in CFF and are not generated; contours without on-curve points are not generated",
            "BasePen's quadratic-to-cubic elevation multiplies by the double 0.6666666666666667: inputs within 1e-6 of a rounding boundary are not generated"]
 
@@ -217,8 +224,16 @@ LEVEL_TEXT = ("Proved (Lean, all inputs): the model of the CFF path (skip-export
               "PointToSegmentPen/BasePen conversion, rounding) draws for every glyph a permutation of - and for the default pipeline exactly - "
               "the contours of the specification renderer (one composed matrix per leaf, reversed iff the composed determinant is negative) on "
               "acyclic non-singular glyph sets with closed contours; rounding = otRound for tolerance>=1/2 (halves up, also negative), identity "
-              "for 0, and never moves a coordinate by more than the tolerance; advance = otRound(width), negative rejected. Tied to the code by "
-              "compiling random fonts with compileOTF and comparing every drawing command.")
-LEVEL_NOTE = ("Trusted: Lean kernel + standard axioms; correspondence harness; Type 2 charstring codec; quadratic elevation is float arithmetic "
+              "for 0, and never moves a coordinate by more than the tolerance; advance = otRound(width), negative rejected. The charstring layer "
+              "(optimizeCFF=0) is proved too: T2CharStringPen rounds every ABSOLUTE point once and emits differences of rounded points, and the Type 2 "
+              "interpreter (operand stack, width by operand parity, running sums, implicit closing) run over the stored program - CFF 1 with width "
+              "operand and endchar, or CFF2 after fontTools' conversion - returns exactly those rounded absolute points for every well-formed outline "
+              "of any size (C01_codec_roundtrip / _charstring / _cff2 / _glyph), so the error at any position is that of ONE rounding however many "
+              "relative commands precede it (C01_codec_no_drift; a pen rounding the deltas instead drifts without bound: naive_pen_drift_unbounded), "
+              "every operand is an integer at tolerance >= 1/2 (C01_codec_integral), and the width operand decodes to otRound(width). Tied to the code by "
+              "compiling random fonts with compileOTF and comparing every drawing command and every token of every raw charstring program.")
+LEVEL_NOTE = ("Trusted: Lean kernel + standard axioms; correspondence harness; fontTools' binary number encoding of charstrings and exactness of "
+              "double arithmetic on the generated dyadic grids (the Type 2 command/program/interpreter layer itself is modelled and proved for "
+              "unspecialised charstrings; specialised ones are C12's); quadratic elevation is float arithmetic "
               "(generator avoids rounding boundaries); singular components make contour direction traversal-dependent and are judged by the model "
               "only; open contours / all-off-curve contours are outside the model.")
